@@ -10,6 +10,9 @@ at the top-level directory.
 */
 
 #include "slu_mt_zdefs.h"
+#ifdef SLU_MT_VERIF
+#include "slu_mt_verif.h"
+#endif /* SLU_MT_VERIF */
 
 int_t
 pzgstrf_factor_snode(
@@ -72,6 +75,9 @@ pzgstrf_factor_snode(
     xa_end   = Astore->colend;
     
     kcol = jcol + pxgstrf_shared->pan_status[jcol].size;
+#ifdef SLU_MT_VERIF
+    SLUV_EVENT(SLUV_E_SNODE_BEGIN, pnum, jcol, kcol, 0, 0, 0);
+#endif /* SLU_MT_VERIF */
 	
     /* Determine the union of the row structure of the supernode */
     if ( (*info = pzgstrf_snode_dfs(pnum, jcol, kcol-1, asub, xa_begin, xa_end,
@@ -107,6 +113,9 @@ pzgstrf_factor_snode(
 			  Glu, pxgstrf_shared->Gstat)) )
 	    if ( singular == 0 ) singular = *info;
 	
+#ifdef SLU_MT_VERIF
+	SLUV_EVENT(SLUV_E_COL_PIVOTED, pnum, icol, pivrow, *info, 0, 0);
+#endif /* SLU_MT_VERIF */
 	nextlu += nsupr;
 
 #if ( DEBUGlevel>= 2 )
